@@ -8,11 +8,12 @@ def run(tier):
     d = 5 if tier == "thorough" else 4
     c.assumptions = [
         "sequential part: 2 consecutive state reports for one SKI with arbitrary reportable states and optional error, notification closures fired in creation order: the stored detail equals the map of the last report (Error when an error is attached), PairingDetailForSki answers the same, and the last delivered notification equals it",
+        "API part (H_C18_Api): one or two state reports whose notifications are still in their delay, then RegisterRemoteSKI / UnregisterRemoteSKI / CancelPairingWithSKI for the same SKI, then the delays elapse: the last notification equals PairingDetailForSki",
         "ordering part: two state changes whose notification delays have both elapsed, every delay-bounded scheduling of the two notification goroutines and the reporting goroutine: the application never sees the older state after the newer one",
         "fakes for application, mDNS; operations atomic except for the notification goroutines; the mapping table itself is compared with nothing but its use (hello-ok => trusted)",
     ]
     c.bounds = {"state_changes_per_ski": 2, "notification_goroutines": 2, "delay_bound": d}
-    res = hubstep.run_hub(c, ["H_C18_Seq", "H_C18_Pending"], ("C18.",), replay=True)
+    res = hubstep.run_hub(c, ["H_C18_Seq", "H_C18_Pending", "H_C18_Api"], ("C18.",), replay=True)
     res2, meta2 = lib.run_engine("hub", ["H_C18_Order"], sched="explore", preempt=d, cuts=hubstep.HUB_CUTS, loop=64)
     c.add_run("notification-order", res2, meta2)
     for e, r in (res2 or {}).items():
